@@ -185,3 +185,10 @@ Definition run_guard (x:sx) : sx :=
 
 (* () -> (dir(scope_extract)  bookkeeping-names) *)
 Definition run_class_attrs (x:sx) : sx := SL [SL (map SA class_attrs); SL (map SA bookkeeping)].
+
+(* tree -> 1 | 0 : Extract.extract_wf, the hypothesis of ExtractTotal.extract_total (no Crash from extraction) *)
+Definition run_extractwf (x:sx) : sx :=
+  match obj_of_sx x with
+  | Some t => sx_bool (extract_wf t)
+  | None => sx_bad
+  end.
